@@ -70,6 +70,13 @@ register_descriptor! {
 fn set_union_fxn(lhs: Value, rhs: Value) -> MResult<Box<dyn MechFunction>> {
   match (lhs, rhs) {
     (Value::Set(lhs), Value::Set(rhs)) => {
+      // a set has one element kind: operands of different element kinds cannot be merged
+      {
+        let (l, r) = (lhs.borrow(), rhs.borrow());
+        if l.num_elements > 0 && r.num_elements > 0 && l.kind != r.kind {
+          return Err(MechError::new(SetKindMismatchError { expected_kind: l.kind.clone(), actual_kind: r.kind.clone() }, None).with_compiler_loc());
+        }
+      }
       Ok(Box::new(SetUnionFxn { lhs: lhs.clone(), rhs: rhs.clone(), out: Ref::new(MechSet::new(lhs.borrow().kind.clone(), lhs.borrow().num_elements + rhs.borrow().num_elements)) }))
     },
     x => Err(MechError::new(
